@@ -84,3 +84,6 @@ pub assume_specification[ f64::is_nan ](a: f64) -> (r: bool) ensures r == f64_is
 pub uninterp spec fn f64_max_const() -> f64;
 #[verifier::external_body]
 pub fn vx_f64_max() -> (r: f64) ensures r == f64_max_const() { f64::MAX }
+// debug-build semantics of an overflowing counter increment: the process panics, i.e. the call does not return
+#[verifier::external_body]
+pub fn vx_incr_i32_or_panic(i: i32) -> (r: i32) ensures i < i32::MAX, r == i + 1 { i.checked_add(1).unwrap() }
